@@ -67,7 +67,8 @@ def make_harness(kinds, names, frozen_ids, nsteps):
                     alone.append(norm(name, w.run(start(w.client, name, i))))
                 finally:
                     w.close()
-            saved_time = util.time
+            from engine.core import seam
+            saved_time = seam(util, "time")
             worlds = [C.World(k, Database(UNIVERSE), pin_ids=not frozen_ids) for k in kinds]
             if frozen_ids:
                 util.time = lambda: 1700000000.0
